@@ -33,8 +33,8 @@ fn props() -> Vec<Prop> {
         Prop { id: "C08", run: c08::run, replay: c08::replay, meta: c08::meta, workers: (8, 16), also_release: false, also_bg: false, scale: (2, 1), fuzz: None },
         Prop { id: "C09", run: c09::run, replay: c09::replay, meta: c09::meta, workers: (4, 8), also_release: true, also_bg: false, scale: (3, 3), fuzz: Some(("pattern_ast", 3000000)) },
         Prop { id: "C11", run: c11::run, replay: c11::replay, meta: c11::meta, workers: (4, 16), also_release: true, also_bg: false, scale: (5, 5), fuzz: Some(("pattern_any", 6000000)) },
-        Prop { id: "C12", run: c12::run, replay: c12::replay, meta: c12::meta, workers: (8, 16), also_release: false, also_bg: false, scale: (2, 1), fuzz: None },
-        Prop { id: "C13", run: c13::run, replay: c13::replay, meta: c13::meta, workers: (4, 16), also_release: false, also_bg: false, scale: (10, 20), fuzz: None },
+        Prop { id: "C12", run: c12::run, replay: c12::replay, meta: c12::meta, workers: (8, 16), also_release: false, also_bg: false, scale: (2, 1), fuzz: Some(("json_record", 1500000)) },
+        Prop { id: "C13", run: c13::run, replay: c13::replay, meta: c13::meta, workers: (4, 16), also_release: false, also_bg: false, scale: (10, 20), fuzz: Some(("builder_names", 2000000)) },
         Prop { id: "C14", run: c14::run, replay: c14::replay, meta: c14::meta, workers: (8, 16), also_release: false, also_bg: false, scale: (5, 2), fuzz: Some(("config_doc", 3000000)) },
         Prop { id: "C15", run: c15::run, replay: c15::replay, meta: c15::meta, workers: (8, 16), also_release: false, also_bg: false, scale: (5, 3), fuzz: None },
         Prop { id: "C16", run: c16::run, replay: c16::replay, meta: c16::meta, workers: (10, 18), also_release: false, also_bg: false, scale: (3, 1), fuzz: None },
@@ -143,6 +143,7 @@ fn child(name: &str, args: &[String]) -> i32 {
         "c18" => c18::child_main(args),
         "c15smoke" => child::child_main::<c15::Smoke>(args, c15::smoke_child),
         "c16" => child::child_main::<engine::ReplayFile>(args, c16::child_replay),
+        "c08global" => child::child_main::<c08::Global>(args, c08::global_child),
         "c16real" => child::child_main::<c16::RealClockChild>(args, c16::real_clock_child),
         _ => {
             eprintln!("unknown child {}", name);
